@@ -44,7 +44,7 @@ static void RunRouting(vf::BS & bs)
    w.Pump();
    // a later SETDATA with the same path keeps the last value; re-sync the implicit parents that were later set explicitly (already handled by map semantics)
    static const char * const CL[] = {"*", "a", "b", "ab", "a*", "?", "zz", "(a|b)", "[ab]*"};
-   uint32 seq = 0; std::map<uint32, std::set<int> > expect; std::map<uint32, int> senderOf; std::set<uint32> hasSessionField; bool sameDepthKeys = false, mixedDepthKeys = false, usedFilter = false, routeReplaced = false, keylessAfterReplace = false, malformedKey = false, malformedBeforeValid = false; uint64_t h = 5;
+   uint32 seq = 0; std::map<uint32, std::set<int> > expect; std::map<uint32, int> senderOf; std::set<uint32> hasSessionField; bool sameDepthKeys = false, mixedDepthKeys = false, usedFilter = false, routeReplaced = false, keylessAfterReplace = false, malformedKey = false, malformedBeforeValid = false, usedChildCount = false; uint64_t h = 5;
    const uint32 nsend = 1+bs.u8()%8;
    for (uint32 s=0; s<nsend; s++)
    {
@@ -85,7 +85,12 @@ static void RunRouting(vf::BS & bs)
       // optional filters, parallel to the keys (a key without a filter is unfiltered)
       if ((absPats.size() > 0)&&(bs.u8()%4 == 0))
       {
-         for (uint32 k=0; k<(uint32)absPats.size(); k++) {const int fv = bs.u8()%3; Int32QueryFilter f("v", Int32QueryFilter::OP_EQUAL_TO, fv); (void) m()->AddArchiveMessage(PR_NAME_FILTERS, f); filterV.push_back(fv); l += " filter[v=="+std::to_string(fv)+"]";}
+         for (uint32 k=0; k<(uint32)absPats.size(); k++)
+         {
+            const uint8_t fb = bs.u8(); const int fv = fb%3;
+            if ((fb>>2)%4 == 3) {ChildCountQueryFilter f(ChildCountQueryFilter::OP_EQUAL_TO, fv); (void) m()->AddArchiveMessage(PR_NAME_FILTERS, f); filterV.push_back(100+fv); l += " filter[children=="+std::to_string(fv)+"]"; usedChildCount = true;}     // a filter that looks at the node itself, not at its payload
+            else {Int32QueryFilter f("v", Int32QueryFilter::OP_EQUAL_TO, fv); (void) m()->AddArchiveMessage(PR_NAME_FILTERS, f); filterV.push_back(fv); l += " filter[v=="+std::to_string(fv)+"]";}
+         }
          usedFilter = true;
       }
       for (size_t a=0; a<depths.size(); a++) for (size_t b=a+1; b<depths.size(); b++) {if (depths[a] == depths[b]) sameDepthKeys = true; else mixedDepthKeys = true;}
@@ -104,8 +109,9 @@ static void RunRouting(vf::BS & bs)
          {
             const bool filtered = (k < fvs.size());
             if ((filtered == false)&&(PathMatch(pats[k], sp))) hit = true;     // session-level key (filters look at node payloads; filtered session-level keys are left to the node clause below)
-            if ((filtered)&&(PathMatch(pats[k], sp))) {/* the session node's payload has no 'v': a v== filter does not pass */}
-            for (std::map<std::string, int>::const_iterator it = pub[r].nodes.begin(); (it != pub[r].nodes.end())&&(hit == false); ++it) if ((PathMatch(pats[k], sp+"/"+it->first))&&((filtered == false)||(it->second == fvs[k]))) hit = true;
+            auto kids = [&](const std::string & parent) {int n = 0; for (std::map<std::string, int>::const_iterator j = pub[r].nodes.begin(); j != pub[r].nodes.end(); ++j) {const std::string & q = j->first; if (parent.empty()) {if (q.find('/') == std::string::npos) n++;} else if ((q.size() > parent.size()+1)&&(q.compare(0, parent.size()+1, parent+"/") == 0)&&(q.find('/', parent.size()+1) == std::string::npos)) n++;} return n;};
+            if ((filtered)&&(PathMatch(pats[k], sp))) {/* the session node's payload has no 'v': a v== filter does not pass; a child-count filter looks at the session node's children */ if ((fvs[k] >= 100)&&(kids("") == fvs[k]-100)) hit = true;}
+            for (std::map<std::string, int>::const_iterator it = pub[r].nodes.begin(); (it != pub[r].nodes.end())&&(hit == false); ++it) if ((PathMatch(pats[k], sp+"/"+it->first))&&((filtered == false)||((fvs[k] >= 100) ? (kids(it->first) == fvs[k]-100) : (it->second == fvs[k])))) hit = true;
          }
          if (hit) e.insert(r);
       }
@@ -121,7 +127,7 @@ static void RunRouting(vf::BS & bs)
    // per (sender, receiver) FIFO
    for (int r=0; r<NC; r++) {std::map<int, uint32> last; for (size_t k=0; k<order[r].size(); k++) {const int s = senderOf[order[r][k]]; if ((last.count(s))&&(last[s] > order[r][k])) vf::Fail("session %d received Message #%u from session %d after #%u: out of order: history [%s]", r, order[r][k], s, last[s], g_hist.c_str()); last[s] = order[r][k];}}
    w.Stop();
-   vf::Count("mode_routing"); vf::Count("routed_messages", nsend); if (sameDepthKeys) vf::Count("case_two_keys_of_equal_depth"); if (mixedDepthKeys) vf::Count("case_keys_of_different_depths"); if (usedFilter) vf::Count("case_with_filters"); if (keylessAfterReplace) vf::Count("case_keyless_message_after_default_route_was_replaced"); if (malformedBeforeValid) vf::Count("case_malformed_key_before_a_valid_one");
+   vf::Count("mode_routing"); vf::Count("routed_messages", nsend); if (sameDepthKeys) vf::Count("case_two_keys_of_equal_depth"); if (mixedDepthKeys) vf::Count("case_keys_of_different_depths"); if (usedFilter) vf::Count("case_with_filters"); if (keylessAfterReplace) vf::Count("case_keyless_message_after_default_route_was_replaced"); if (malformedBeforeValid) vf::Count("case_malformed_key_before_a_valid_one"); if (usedChildCount) vf::Count("case_with_child_count_filter");
    if ((sameDepthKeys)||(mixedDepthKeys)) {vf::NonTrivial(h); if (vf::WantSample()) vf::Sample(g_hist);}
 }
 
